@@ -23,8 +23,20 @@ class Recorder(object):
         except ValueError:
             return
         mon.register_callback(self.TOOL, mon.events.PY_START, self._start)
-        mon.set_events(self.TOOL, mon.events.PY_START)
+        events = mon.events.PY_START
+        if os.environ.get('VERIF_LINE_COVER'):
+            # reach analysis only (tools/reach.py): every line reports once, then is switched off
+            self.lines = set()
+            mon.register_callback(self.TOOL, mon.events.LINE, self._line)
+            events |= mon.events.LINE
+        mon.set_events(self.TOOL, events)
         self.active = True
+
+    def _line(self, code, lineno):
+        fn = code.co_filename
+        if fn.startswith(self.root) or fn.startswith(self.scripts):
+            self.lines.add((fn[len(env.REPO) + 1:], lineno))
+        return sys.monitoring.DISABLE
 
     def _start(self, code, offset):
         fn = code.co_filename
@@ -39,6 +51,11 @@ class Recorder(object):
         mon = sys.monitoring
         mon.set_events(self.TOOL, 0)
         mon.register_callback(self.TOOL, mon.events.PY_START, None)
+        if os.environ.get('VERIF_LINE_COVER'):
+            mon.register_callback(self.TOOL, mon.events.LINE, None)
+            with open(os.path.join(os.environ['VERIF_LINE_COVER'], 'lines-%d.txt' % os.getpid()), 'w') as f:
+                for fn, ln in sorted(self.lines):
+                    f.write('%s:%d\n' % (fn, ln))
         mon.free_tool_id(self.TOOL)
         self.active = False
 
